@@ -181,9 +181,11 @@ Section Steps.
     Forall2 (moves (b2n (String.eqb "PrefixTransformer" k)) (b2n (String.eqb "SuffixTransformer" k))
                    (pd_prefix d) (pd_suffix d)) m m'.
   Proof.
-    intros ([Hrp Him] & _ & Hn & _ & _ & _ & Hp & Hs) Hns HW. unfold run_kind. rewrite Hns, Hrp, Him.
+    intros ([Hrp Him] & _ & Hn & _ & _ & _ & Hp & Hs) Hns HW. unfold run_kind. rewrite Hns, Hrp, Him, (proj2 Hn).
     assert (Z : forall m0, Forall2 (moves 0 0 (pd_prefix d) (pd_suffix d)) m0 m0).
     { intros m0. apply Forall2_refl_on. intros r. apply same_identity_moves, same_identity_refl. }
+    destruct (String.eqb_spec k "PatchTransformer") as [->|N0].
+    { cbn. intros H; inv H. split; [assumption|apply Z]. }
     destruct (String.eqb_spec k "NamespaceTransformer") as [->|N1].
     { cbn. intros H; inv H. split; [assumption|apply Z]. }
     destruct (String.eqb_spec k "PrefixTransformer") as [->|N2].
@@ -329,6 +331,14 @@ Section Build.
     destruct (accumulate nonstr (PDir n d ents)) as [m| | |] eqn:EA; cbn [bind] in H; try discriminate.
     destruct (accumulate_names nonstr _ _ Hwf EA) as (HW & HN & HI).
     rewrite (mapM_hash_NH m HN) in H. cbn [bind] in H.
+    (* robust against a unit-valued check step between the hash step and the rules (w-pipe: hash_check) *)
+    try match type of H with
+        | bind ?e _ = _ =>
+            lazymatch e with
+            | pipe_rules => fail
+            | _ => destruct e as [[]| | |]; cbn [bind] in H; try discriminate
+            end
+        end.
     destruct pipe_rules as [rules| | |] eqn:ER; cbn [bind] in H; try discriminate.
     destruct (nameref_transform cs nonstr rules m) as [m2| | |] eqn:E2; cbn [bind] in H; try discriminate.
     destruct (ignore_local m2) as [m2l| | |] eqn:EL; cbn [bind] in H; try discriminate.
